@@ -211,6 +211,13 @@ def generate(repo):
         return opens == 0
     item("replay_registers_like_put_durable", True, replay_registers_like_put_durable)
 
+    def slot_alloc_rmw():
+        es = strip_comments(read(repo, "tensor_store/src/embedding_slab.rs"))
+        _, body = find_fn(es, "allocate_slot", after=r"impl\s+EmbeddingSlab\b")
+        # two first puts must never get the same slot: the write position advances by ONE atomic read-modify-write
+        return re.search(r"self\.write_pos\.fetch_add\(\s*1\s*,", body) is not None and "write_pos.store(" not in body and "write_pos.load(" not in body
+    item("slot_alloc_fetch_add", True, slot_alloc_rmw)
+
     def bloom_add_rmw():
         lib = strip_comments(read(repo, "tensor_store/src/lib.rs"))
         _, body = find_fn(lib, "add", after=r"impl\s+BloomFilter\b")
@@ -253,6 +260,8 @@ def generate(repo):
     text += "Definition gen_bloom_add_before_write : bool := %s.\n" % ("true" if out["bloom_add_before_write"] else "false")
     text += "(* apply_wal_entry(MetadataSet) allocates an entity id for every value carrying `_embedding`, as put_durable does *)\n"
     text += "Definition gen_replay_registers_like_put_durable : bool := %s.\n" % ("true" if out["replay_registers_like_put_durable"] else "false")
+    text += "(* EmbeddingSlab::allocate_slot advances the write position with one atomic fetch_add (no load + store) *)\n"
+    text += "Definition gen_slot_alloc_fetch_add : bool := %s.\n" % ("true" if out["slot_alloc_fetch_add"] else "false")
     text += "(* BloomFilter::add sets each bit with one atomic fetch_or (no load + store) *)\n"
     text += "Definition gen_bloom_add_fetch_or : bool := %s.\n" % ("true" if out["bloom_add_fetch_or"] else "false")
     text += "(* CacheRing::get compares the slot entry's key before returning its value *)\n"
